@@ -147,7 +147,7 @@ class ProcessExecutor:
             # pending, so that an interrupt cannot lose it.
             self._running_id_to_future_and_process[future.id] = (future, process)
             del self._pending_future_to_thunk[future]
-            _verif.emit('pstart', t=_verif.future_task(future.id))
+            _verif.emit('pstart', t=_verif.bind_future(future.id, thunk))
             process.start()
 
     def submit(self, fn: Callable, /, *args, **kwargs) -> Future:
